@@ -74,6 +74,23 @@ def run(chk):
                 continue          # reported under C02-R2 for that column
             frees |= r['frees']
             imp += r['impure']
+        # a loader that fills several columns at once is invoked under the name of ONE of them (whichever the load order reaches
+        # first): the value it gives a column must not depend on which name that was
+        per_key = {}
+        for n in mine[:6]:
+            try:
+                r = lt.evaluate(n)
+            except AnalysisError:
+                continue
+            if isinstance(r['value'], dict):
+                for k_, ent in r['value'].items():
+                    per_key.setdefault(k_, {})[n] = repr(ent[0])
+        varying = {k_: d for k_, d in per_key.items() if len(set(d.values())) > 1}
+        if per_key:
+            chk.check(not varying, 'C02-R6', CAT, SETUP, f'loader #{i} /{pat[:40]}/: each column it fills has one value whatever name it was invoked under',
+                      f'columns {sorted(per_key)} x invoked as {sorted(mine[:6])}',
+                      '; '.join(f'{k_}: ' + ' | '.join(f'as {n_}: {v_[:90]}' for n_, v_ in sorted(d.items())) for k_, d in sorted(varying.items()))[:600] +
+                      ': the column depends on which of the co-requested columns is loaded first', node=asg, nontrivial=False)
         extra = sorted(frees - allowed)
         chk.check(not extra and not imp, 'C02-R6', CAT, SETUP, f'loader #{i} /{pat[:40]}/', f'free names {sorted(frees)}',
                   f'loader reads {extra} {imp[:3]}: result can depend on request state', node=asg, nontrivial=False)
@@ -352,6 +369,35 @@ def ensured(chk):
                 child, q = q, getattr(q, '_parent', None)
             if not guarded:
                 bad.append(n)
+    # the per-file cleaning handle (`caf = cleaned_afs[i] if cleaned_afs else None`) is None for an uncleaned catalog AND for a halo light
+    # cone, whose own file carries columns with cleaning names (haloindex, N_mainprog, ...): wherever the handle is selected as the source of
+    # a column, the selection tests the handle itself, not only the column's name
+    nullable = {unparse(a_.targets[0]) for a_ in walk_no_nested(rh) if isinstance(a_, ast.Assign) and len(a_.targets) == 1 and isinstance(a_.targets[0], ast.Name)
+                and isinstance(a_.value, ast.IfExp) and isinstance(a_.value.orelse, ast.Constant) and a_.value.orelse.value is None}
+    badsel = []
+    scope_ = []
+    for a_ in walk_no_nested(rh):
+        if isinstance(a_, ast.Assign) and len(a_.targets) == 1 and unparse(a_.targets[0]) in nullable and isinstance(a_.value, ast.IfExp):
+            par_ = getattr(a_, '_parent', None)
+            if par_ is not None:
+                scope_.append(par_)          # the block (loop body) in which the name denotes the nullable handle
+    for n in [x for sc_ in scope_ for x in walk_no_nested(sc_)]:
+        if isinstance(n, ast.IfExp) and isinstance(n.body, ast.Name) and n.body.id in nullable:
+            h = n.body.id
+            if not any(unparse(c_).replace(' ', '') in (f'{h}isnotNone', h) for c_ in ast.walk(n.test)):
+                badsel.append(n)
+        if isinstance(n, ast.Subscript) and isinstance(n.value, ast.Name) and n.value.id in nullable and isinstance(n.ctx, ast.Load):
+            q, guarded, child = getattr(n, '_parent', None), False, n
+            while q is not None and q is not rh:
+                if isinstance(q, (ast.If, ast.IfExp)) and any(unparse(c_).replace(' ', '') in (f'{n.value.id}isnotNone', n.value.id) for c_ in ast.walk(q.test)):
+                    guarded = True
+                child, q = q, getattr(q, '_parent', None)
+            if not guarded:
+                badsel.append(n)
+    chk.check(not badsel, 'C02-R5', CAT, CLS + '_read_halo_info', 'the cleaning-file handle is used as a column source only where it is not None', f'handles {sorted(nullable)}',
+              f'{unparse(badsel[0])[:70] if badsel else ""}: the handle is None without a cleaning file (cleaned=False, halo light cone) but is chosen by the column NAME alone; '
+              'a light-cone halo file has columns with cleaning names (haloindex, N_mainprog, ...), so the default / "all" passthrough request raises TypeError while other requests load',
+              node=badsel[0] if badsel else rh, nontrivial=False)
     chk.check(not bad, 'C02-R5', CAT, CLS + '_read_halo_info', 'cleaned_afs[k] is taken only where a cleaning file exists (cleaned=True)', f'{nsub} subscript(s)',
               f'{unparse(bad[0])[:40] if bad else ""} at line {src.orig_line_of(CAT, bad[0]) if bad else 0} is evaluated also when cleaned=False, where the list of cleaning files is empty: IndexError '
               '(passthrough with cleaned=False cannot load)', node=bad[0] if bad else rh, nontrivial=False)
